@@ -67,3 +67,86 @@ def prs_scenario(n=3, twin=False):
         if twin:
             ctx.fail("TWIN:reached-end")
     return fn
+
+
+def selector_scenario(nmax=4, twin=False):
+    """RoundRobin_edge_selector; _get_in/out_edge_index range checks of every node class (answers chosen by the solver, out of range included)"""
+    def fn(ctx):
+        load_repo()
+        from factorysimpy.utils.utils import get_edge_selector
+        from factorysimpy.nodes.machine import Machine
+        from factorysimpy.nodes.splitter import Splitter
+        from factorysimpy.nodes.combiner import Combiner
+        env = make_env()
+        which = ctx.choice(4, "what")
+        n = 1 + ctx.choice(nmax, "n_edges")
+
+        class N:
+            pass
+        if which == 0:
+            node = N()
+            side = ["in", "out"][ctx.choice(2, "side")]
+            setattr(node, side + "_edges", [object() for _ in range(n)])
+            g = get_edge_selector("ROUND_ROBIN", node, env, side.upper())
+            seq = [next(g) for _ in range(2 * n + 1)]
+            ctx.hit("C15:range-checked")
+            if seq != [k % n for k in range(2 * n + 1)]:
+                ctx.fail("C15:round-robin-sequence-wrong", {"n": n, "seq": seq})
+        else:
+            cls = [None, Machine, Splitter, Combiner][which]
+            kw = {}
+            if cls is Combiner:
+                kw["target_quantity_of_each_item"] = [1] * n
+            node = cls(env, "X", **kw)
+            edges = [object() for _ in range(n)]
+            node.in_edges = list(edges)
+            node.out_edges = list(edges)
+            side = ["in", "out"][ctx.choice(2, "side")]
+            if cls is Combiner and side == "in":
+                ctx.assume(False)
+            v = ctx.choice(n + 2, "answer") - 1      # -1 .. n
+            calls = []
+            kind = ctx.choice(3, "policy-kind")
+
+            def f():
+                calls.append(1)
+                return v
+
+            def gen():
+                while True:
+                    calls.append(1)
+                    yield v
+            pol = [f, gen(), v][kind]
+            setattr(node, side + "_edge_selection", pol)
+            hist_before = list(node.stats[side + "_edge_selection"])
+            err = None
+            try:
+                r = getattr(node, f"_get_{side}_edge_index")()
+            except symx_stop():
+                raise
+            except Exception as e:
+                err = e
+            ctx.hit("C15:range-checked")
+            if 0 <= v < n:
+                if err is not None:
+                    ctx.fail(f"C15:valid-index-rejected@{cls.__name__}", {"v": v, "n": n, "err": repr(err)})
+                if r != v:
+                    ctx.fail(f"C15:policy-answer-not-obeyed@{cls.__name__}", {"v": v, "r": r})
+                if node.stats[side + "_edge_selection"] != hist_before + [v]:
+                    ctx.fail(f"C15:answer-not-recorded-once@{cls.__name__}", {})
+            else:
+                if err is None:
+                    ctx.fail(f"C15:out-of-range-index-accepted@{cls.__name__}", {"v": v, "n": n, "r": r})
+                if node.stats[side + "_edge_selection"] != hist_before:
+                    ctx.fail(f"C15:out-of-range-index-recorded@{cls.__name__}", {})
+            if kind != 2 and len(calls) != 1:
+                ctx.fail(f"C15:policy-consulted-{len(calls)}-times@{cls.__name__}", {})
+        ctx.hit("complete")
+        if twin:
+            ctx.fail("TWIN:reached-end")
+    return fn
+
+
+def symx_stop():
+    from . import symx
+    return symx.PathStop
